@@ -13,7 +13,7 @@ M = [
  ("M07-prune-conditional", "src/encodation/planner/shortest_path.rs", "        remove_hopeless_cases(&mut new_plan);\n", "        if iteration % 2 == 0 {\n            remove_hopeless_cases(&mut new_plan);\n        }\n", {"C19": "PRUNE-EVERY"}),
  ("M08-dec-error-view", "src/errorcode/decoding/syndrome_based.rs", "&mut error[block..],", "&mut error[..],", {"C03": "PROV-RSDEC"}),
  ("M09-first-fit-gt", "src/symbol_size.rs", ".find(|s| s.num_data_codewords() >= size_needed)", ".find(|s| s.num_data_codewords() > size_needed)", {"C12": "PROV-FILTER", "C10": "PROV-FILTER"}),
- ("M10-generator-coeff", "src/errorcode/mod.rs", "1, 204, 11, 47, 86, 124, 224,", "1, 204, 11, 47, 86, 124, 225,", {"C06": "TAB-GEN", "C09": "TAB-GEN"}),
+ ("M10-generator-coeff", "src/errorcode/mod.rs", "1, 204, 11, 47, 86, 124, 224,", "1, 204, 11, 47, 86, 124, 225,", {"C06": "TAB-GEN"}),
  ("M11-gf-mod", "src/errorcode/galois.rs", "let i = (ia as u16 + ib as u16) % 255;", "let i = (ia as u16 + ib as u16) % 254;", {"C06": "GF-OPS"}),
  ("M12-pad-const", "src/encodation/ascii.rs", "pub(crate) const PAD: u8 = 129;", "pub(crate) const PAD: u8 = 128;", {"C02": "TAB-CW"}),
  ("M13-default-dmre", "src/symbol_size.rs", "SYMBOL_SIZES.iter().copied().filter(|s| !s.is_dmre());", "SYMBOL_SIZES.iter().copied().filter(|s| !s.is_dmre() || s.is_square());", {"C12": "PROV-FILTER"}),
